@@ -179,6 +179,9 @@ func (s *Sched) runnableOther() []int {
 
 func (s *Sched) yield(e *Env, site string, isBoost bool) {
 	atomic.AddUint64(&s.tick, 1)
+	if s.yields&255 == 0 {
+		atomic.AddUint64(&globalTick, 1)
+	}
 	s.yields++
 	if s.aborted {
 		panic(WatchdogAbort{s.yields})
